@@ -27,6 +27,7 @@ KEYS = ["C", "N", "H", "Fe", "Xe", "C+1", "N-1", "Fe+2", "Fe+10", "O-12", "C+0",
 CAPS = [0, 1, 2, 3, 4, 9]
 QCAPS = [0, 2, 8]
 KEYS2 = ["C", "Fe+2", "N-1", "Cl", "H", "O-12"]
+CONT = ["[C]", "[=C]", "[Branch1]", "[Ring1]", "[=Ring1]"]
 STRUCT = ["[Branch1]", "[#Branch2]", "[Ring1]", "[=Ring1]", "[=Branch1]", "[Ring2]"]
 
 
@@ -76,7 +77,17 @@ def plan(tier, seed):
     # (a task is one table; the key-neighbourhood tables are mostly rejected by the setter and cost next to nothing)
     scopes = [{"name": "tables", "tables": len(fam), "key_palette": KEYS, "capacities": CAPS, "default_capacities": QCAPS,
                "bound_whole_alphabet": 2, "bound_atoms_plus_structural": L, "structural_representatives": STRUCT}]
-    return {"scopes": scopes, "tasks": tasks, "bounds": {"L": L}, "weight": lambda t: 1 if t[1][0] < 3 else 0}
+    # rings competing for the same valences from both directions need 9 symbols (a ring queued inside a branch targets the
+    # branch root, which then closes its own multiple ring bond): every string over five robust symbols up to that length
+    Lc = 9
+    scopes.append({"name": "ring-contention", "alphabet": CONT, "bound_L": Lc, "tables": ["default", "octet_rule (quick: L-1)", "hypervalent (quick: L-1)"],
+                   "tree_size": E1.tree_size(len(CONT), Lc)})
+    for tn in ("default", "octet_rule", "hypervalent"):
+        Lt = Lc if (tn == "default" or thorough) else Lc - 1
+        for sh in E1.shard_prefixes(CONT, Lt, 2):
+            tasks.append(("ring-contention", ("cont", tn, Lt, sh)))
+    return {"scopes": scopes, "tasks": tasks, "bounds": {"L": L, "L_contention": Lc},
+            "weight": lambda t: 1 if (t[0] == "tables" and t[1][0] < 3) else 0}
 
 
 _SF = None
@@ -104,7 +115,45 @@ def required_symbols(table):
     return req, forbidden - req
 
 
+def run_contention(arg):
+    _, tn, L, sh = arg
+    r = Result()
+    _SF.set_semantic_constraints("".join(list(tn)))
+    t = _SF.get_semantic_constraints()
+    alpha = _SF.get_semantic_robust_alphabet()
+    case = {"table_name": tn, "table": tn}
+    if not set(CONT) <= set(alpha):
+        r.violation("alphabet-missing-required", case, "missing %r" % sorted(set(CONT) - set(alpha)))
+        return r
+    r.states += 1
+    s = None
+    for w in E1.nodes(CONT, L, sh):
+        s = "".join(w)
+        r.evaluations += 1
+        r.transitions += 1
+        try:
+            out = _SF.decoder(s)
+        except _SF.DecoderError:
+            r.violation("decoder-rejects-robust-string", dict(case, selfies=s), "decoder(%r) raised DecoderError under %s" % (s, tn))
+            continue
+        except Exception as e:
+            r.violation("escaped:" + type(e).__name__, dict(case, selfies=s), repr(e)[:200])
+            continue
+        v = c01.check_output(out, t, s)
+        if v:
+            r.violation("invalid-molecule:" + v[0], dict(case, selfies=s), v[1])
+        else:
+            r.validated += 1
+            if out:
+                r.nontrivial.add(h64((tn, out)))
+    if s:
+        r.sample({"scope": "ring-contention", "table": tn, "selfies": s}, 1)
+    return r
+
+
 def run(task):
+    if task[0] == "ring-contention":
+        return run_contention(task[1])
     _, (ti, L) = task
     r = Result()
     fam = table_family()
